@@ -112,7 +112,9 @@ def scenario(rng, kind=None, mode=None, removal=None, builtin_p=0.6, prog_p=0.4)
     kind = kind or rng.choice(KINDS)
     mode = mode or rng.choice(["vac", "temp", "press"])
     model = rng.choice(["NRTL", "NRTL", "UNIQUAC"])
-    T0 = gen.edge_temperature(rng)          # the whole range of the quantifier, its edges included
+    # the whole range of the quantifier, its edges included; sometimes from a small grid, so that different runs (other mixtures,
+    # other components of the same name) meet at EQUAL temperatures
+    T0 = gen.edge_temperature(rng) if rng.random() < 0.75 else rng.choice(gen.GRID_T)
     sc = {"mix": mix, "kind": kind, "mode": mode, "model": model, "T0": T0,
           "N": rng.choice([1, 2, 3, 5, 8, 12]), # from a laboratory cell (grams of feed on a few cm2) to a plant
           "A": gen.logu(rng, 1e-4, 1e2), "m0": gen.logu(rng, 1e-3, 1e3),
